@@ -1,4 +1,5 @@
 import IOptProofs.RefineSim
+import IOptProofs.MethodFacts
 import IOptProps.C19
 /-!
 # C06 (links clause) — the list-level search model refines the pointer-level container model
@@ -18,12 +19,13 @@ two only informally.  This file composes them.
   `GetDataItemWithMaxGlobalR()`; `old.globalR` rewritten, `InsertDataItem(new, old)`.
   The attributes the container never looks at (`point`, `z`, value holder, index, `delta`) live in a
   side table indexed by the id.
-* **The abstraction**: `AGP.abs sd = (SD.traversal sd, sd.gq)`; `AGP.absState c` is the whole list-level
+* **The abstraction**: `AGP.absSD sd = (SD.traversal sd, sd.gq)` (the `abs` of the task); `AGP.absState c` is the whole list-level
   state read off a concrete state (items in traversal order, the queue, `nextId = len(_allTrials)`).
 * **The refinement** (`C06_links_refine`): for every reachable list-level state `s` the concrete run on
   the same objective values succeeds and its container is well formed, has the traversal, the
   coordinates, the characteristics and the queue of `s`, and `absState c = s`.
-  `C06_pop_agrees` is the inductive step: selection, neighbour lookup and renewal agree.
+  `C06_pop_agrees` is the inductive step: selection, neighbour lookup and renewal agree
+  (`C06_lock_step`: the same without any hypothesis on `FnsLaws`, `r`, `n`).
 
 Route for the key order: the helper lemmas of C19 were proved for `leB = decide (· ≤ ·)` of a
 `LinearOrder κ`.  The three that are needed here (`insert` with a hint, `refill`, a loop of
@@ -63,13 +65,13 @@ theorem C06_links_refine {log : List (List α × α)} (h : Reach p s log) :
       (∀ it ∈ s.items, ∃ cit, c.sd.trials[it.id]? = some cit ∧ cit.x = it.x ∧ cit.globalR = it.R) ∧
       c.sd.gq = s.queue ∧
       c.sd.trials.size = s.nextId ∧
-      abs c.sd = (s.items.map (·.id), s.queue) ∧
+      absSD c.sd = (s.items.map (·.id), s.queue) ∧
       absState c = s := by
   obtain ⟨c, hc, hs⟩ := reach_sim h
   refine ⟨c, hc, hs.rs.wf, hs.rs.traversal, ?_, hs.gq, hs.size, ?_, hs.abs⟩
   · intro it hit
     exact get_of_xrOf (hs.rs.xr it hit)
-  · unfold abs
+  · unfold absSD
     rw [hs.rs.traversal, hs.gq]
 
 /-- the statement in the form of the task (with the standing hypotheses of the other C06 theorems) -/
@@ -157,6 +159,32 @@ theorem C06_pop_agrees (hL : FnsLaws α) (hr : 1 < p.r) (hn : 0 < p.n) {log : Li
   rw [hcp]
   exact hc'
 
+/-- **C06_lock_step** (`C06_pop_agrees` without any hypothesis on `FnsLaws`, `r`, `n`; the popped
+key is then only known to be the key at the head of the queue).  Selection, neighbour lookup, new
+coordinate and renewal of the two runs agree in every reachable state. -/
+theorem C06_lock_step {log : List (List α × α)} (h : Reach p s log) {pr : Prep α}
+    (hp : prepare p s = .ok pr) :
+    ∃ c cpr k, cRun p (log.map (·.2)) = some c ∧
+      SD.popMaxGlobal keyLe (cRecalcAll p c).sd = .ok (cpr.c.sd, pr.old.id, k) ∧
+      cpr.c.sd.gq = pr.s.queue ∧
+      cpr.c.sd.trials[pr.old.id]?.bind (·.left) = some pr.left.id ∧
+      cPrepare p c = .ok cpr ∧ cpr.old = pr.old.id ∧ cpr.left = pr.left.id ∧
+      cpr.x = pr.x ∧ cpr.point = pr.point ∧ absState cpr.c = pr.s ∧
+      ∀ z, ∃ c', cCommit p cpr z = some c' ∧ cRun p (log.map (·.2) ++ [z]) = some c' ∧
+        SD.WF c'.sd ∧ absState c' = commit p pr z := by
+  obtain ⟨c, hc, hs⟩ := reach_sim h
+  obtain ⟨cpr, sd', k, q, -, hpop, hgq, -, hlp, hcp, hsd, hsim, hold, hleft, hx, hpt,
+    ⟨pre, post, e⟩, h1, h2⟩ := cPrepare_sim hs hp
+  subst hsd
+  refine ⟨c, cpr, k, hc, hpop, hgq, hlp, hcp, hold, hleft, hx, hpt, hsim.abs, ?_⟩
+  intro z
+  obtain ⟨c', hc', hs'⟩ := cCommit_sim (p := p) hsim hold hleft hx hpt e h1 h2 z
+  refine ⟨c', hc', ?_, hs'.rs.wf, hs'.abs⟩
+  rw [cRun_snoc p _ z hc]
+  unfold cIterate
+  rw [hcp]
+  exact hc'
+
 /-- **C06_insert_ok** (the composition `C19 ∘ C06` made explicit).  At the insertion of the renewal
 step the precondition `SD.InsertOk` of `C19_insert_ok` holds in the concrete container: the new
 coordinate is not left of the first item, some stored coordinate is larger, and the hint handed to
@@ -220,5 +248,138 @@ theorem C06_insert_ok {log : List (List α × α)} (h : Reach p s log) {pr : Pre
       · have := (List.pairwise_append.1 hpw).2.2 it h' pr.left (by simp)
         exact le_trans this (le_of_lt h1)
       · simp only [List.mem_singleton] at h'; subst h'; exact le_of_lt h1
+
+/-- **Route 1 works as well**: `keyLe` is the Boolean `≤` of the linear order `WithBot α`
+(`keyLe_eq_leB`), so the queue theorems of C19 apply verbatim to the container of the concrete run.
+Here `C19_pop_max` for the key order `keyLe`: on a well-formed container with a sorted queue the
+request succeeds, does not touch the items, and (if the queue was not empty) pops the head, whose key
+is `≥` every queued key. -/
+theorem C19_pop_max_keyLe {α : Type} [LinearOrder α] (sd : SD.State α (Option α)) (h : SD.WF sd)
+    (hs : QSorted sd.gq) (hm : sd.maxlen ≠ some 0) :
+    ∃ s' i k, SD.popMaxGlobal keyLe sd = .ok (s', i, k) ∧ s'.trials = sd.trials ∧ s'.first = sd.first ∧
+      (sd.gq ≠ [] → sd.gq = (k, i) :: s'.gq ∧ ∀ e ∈ sd.gq, keyLe e.1 k = true) := by
+  obtain ⟨s', i, k, h1, h2, h3, h4⟩ :=
+    SD.C19_pop_max (κ := WithBot α) (s := sd) h ((qsorted_iff sd.gq).1 hs) hm
+  refine ⟨s', i, k, ?_, h2, h3, ?_⟩
+  · rw [keyLe_fun_eq_leB]
+    exact h1
+  · intro hne
+    rcases h4 with ⟨h5, -, h6⟩ | ⟨h5, -⟩
+    · refine ⟨h5, ?_⟩
+      intro e he
+      have := keyLe_eq_leB (α := α) e.1 k
+      exact this.trans (by simpa using h6 e he)
+    · exact absurd h5 hne
+
+/-! ## Non-vacuity -/
+
+section NonVacuityRat
+attribute [local instance] Fns.rat1
+namespace LinksExample
+
+/-- `N = 1`, `r = 2`, evolvent = identity, over ℚ (everything is computed by the kernel) -/
+def exP : Params ℚ := { n := 1, r := 2, eps := 1 / 100, itersLimit := 100, image := fun x => [x] }
+
+/-- the objective values: the first trial and three iterations -/
+def exZs : List ℚ := [1, 3, 0, 2]
+
+/-- **A concrete 3-iteration run where both sides are computed and agree.**  The list-level run
+(`lRun`, a reachable state by `lRun_reach`) and the concrete run (`cRun`) on the values `1, 3, 0, 2`:
+the hypotheses of `C06_links_refine` hold, its conclusion is instantiated, and the computed data of
+the two sides are displayed: the item list `(id, x, R)` and the queue of the list-level state; the
+traversal, the queue and the array `_allTrials` as `(x, left, right, globalR)` of the container. -/
+theorem ex_run_agrees : ∃ (s : State ℚ) (log : List (List ℚ × ℚ)) (c : CState ℚ),
+    Reach exP s log ∧ log.map (·.2) = exZs ∧
+    cRun exP exZs = some c ∧ SD.WF c.sd ∧ absState c = s ∧
+    -- the list-level side, computed
+    s.items.map (fun it => (it.id, it.x, it.R)) =
+      [(0, 0, none), (3, 1 / 4, some (-1 / 4)), (2, 1 / 2, some (-3 / 16)), (4, 3 / 4, some (9 / 64)),
+       (5, 7 / 8, some (1 / 32)), (1, 1, some 0)] ∧
+    s.queue = [(some (9 / 64), 4), (some (1 / 32), 5), (some 0, 1), (some (-3 / 16), 2),
+               (some (-1 / 4), 3), (none, 0)] ∧
+    -- the pointer-level side, computed
+    SD.traversal c.sd = [0, 3, 2, 4, 5, 1] ∧
+    c.sd.gq = [(some (9 / 64), 4), (some (1 / 32), 5), (some 0, 1), (some (-3 / 16), 2),
+               (some (-1 / 4), 3), (none, 0)] ∧
+    c.sd.first = some 0 ∧ c.sd.maxlen = none ∧
+    c.sd.trials.toList.map (fun it => (it.x, it.left, it.right, it.globalR)) =
+      [(0, none, some 3, none), (1, some 5, none, some 0), (1 / 2, some 3, some 4, some (-3 / 16)),
+       (1 / 4, some 0, some 2, some (-1 / 4)), (3 / 4, some 2, some 5, some (9 / 64)),
+       (7 / 8, some 4, some 1, some (1 / 32))] := by
+  -- the list-level run
+  have hl : (lRun exP exZs).map (fun r => (r.1.items.map (fun it => (it.id, it.x, it.R)), r.1.queue)) =
+      some ([(0, 0, none), (3, 1 / 4, some (-1 / 4)), (2, 1 / 2, some (-3 / 16)), (4, 3 / 4, some (9 / 64)),
+             (5, 7 / 8, some (1 / 32)), (1, 1, some 0)],
+            [(some (9 / 64), 4), (some (1 / 32), 5), (some 0, 1), (some (-3 / 16), 2),
+             (some (-1 / 4), 3), (none, 0)]) := by decide +kernel
+  -- the concrete run
+  have hcr : (match cRun exP exZs with
+      | none => false
+      | some c =>
+        decide (SD.traversal c.sd = [0, 3, 2, 4, 5, 1]) &&
+        decide (c.sd.gq = [(some (9 / 64), 4), (some (1 / 32), 5), (some 0, 1), (some (-3 / 16), 2),
+                           (some (-1 / 4), 3), (none, 0)]) &&
+        decide (c.sd.first = some 0) && decide (c.sd.maxlen = none) &&
+        decide (c.sd.trials.toList.map (fun it => (it.x, it.left, it.right, it.globalR)) =
+          [(0, none, some 3, none), (1, some 5, none, some 0), (1 / 2, some 3, some 4, some (-3 / 16)),
+           (1 / 4, some 0, some 2, some (-1 / 4)), (3 / 4, some 2, some 5, some (9 / 64)),
+           (7 / 8, some 4, some 1, some (1 / 32))])) = true := by decide +kernel
+  cases hr : lRun exP exZs with
+  | none => rw [hr] at hl; cases hl
+  | some r =>
+    obtain ⟨s, log⟩ := r
+    obtain ⟨hre, hlog⟩ := lRun_reach hr
+    obtain ⟨c, hc, hwf, -, -, -, -, -, habs⟩ := C06_links_refine hre
+    rw [hlog] at hc
+    rw [hr] at hl
+    rw [hc] at hcr
+    simp only [Option.map_some, Option.some.injEq, Prod.mk.injEq] at hl
+    simp only [Bool.and_eq_true, decide_eq_true_eq] at hcr
+    exact ⟨s, log, c, hre, hlog, hc, hwf, habs, hl.1, hl.2, hcr.1.1.1.1, hcr.1.1.1.2, hcr.1.1.2, hcr.1.2, hcr.2⟩
+
+/-- the hypotheses of `C19_pop_max_keyLe` hold for the container of this run -/
+example : ∃ c : CState ℚ, cRun exP exZs = some c ∧ SD.WF c.sd ∧ QSorted c.sd.gq ∧ c.sd.maxlen ≠ some 0 := by
+  obtain ⟨s, log, c, -, -, hc, hwf, -, -, -, -, hgq, -, hm, -⟩ := ex_run_agrees
+  refine ⟨c, hc, hwf, ?_, by rw [hm]; simp⟩
+  rw [hgq]
+  unfold QSorted
+  decide +kernel
+
+/-- the selection step on the same run, both sides computed: after the recalculation
+`GetDataItemWithMaxGlobalR` pops `(49/256, 4)` and `prepare` selects the item with id 4 and
+characteristic `49/256`; its `left` pointer is 2, the id of the neighbour `prepare` finds in the list;
+the remaining queues are equal (the instance of `C06_pop_agrees`, whose hypothesis `FnsLaws` is not
+available over ℚ, checked by computation). -/
+example : (match lRun exP exZs, cRun exP exZs with
+    | some (s, _), some c =>
+      (match prepare exP s, SD.popMaxGlobal keyLe (cRecalcAll exP c).sd with
+       | .ok pr, .ok (sd', i, k) =>
+         decide (i = 4) && decide (pr.old.id = 4) && decide (k = some (49 / 256)) &&
+         decide (pr.old.R = some (49 / 256)) && decide (pr.left.id = 2) &&
+         decide (sd'.trials[i]?.bind (·.left) = some 2) && decide (sd'.gq = pr.s.queue) &&
+         decide (sd'.gq = [(some (1 / 8), 3), (some (1 / 32), 5), (some (1 / 64), 2), (some 0, 1), (none, 0)])
+       | _, _ => false)
+    | _, _ => false) = true := by decide +kernel
+
+end LinksExample
+end NonVacuityRat
+
+section NonVacuityReal
+attribute [local instance] Fns.real
+
+/-- the hypotheses of `C06_pop_agrees` / `C06_insert_ok` / `C06_links` are satisfiable: a reachable
+state after five trials over ℝ (`N = 2`, `r = 3`) on which `prepare` succeeds -/
+example : ∃ (p : Params ℝ) (s : State ℝ) (log : List (List ℝ × ℝ)) (pr : Prep ℝ),
+    FnsLaws ℝ ∧ 1 < p.r ∧ 0 < p.n ∧ Reach p s log ∧ log.length = 5 ∧ prepare p s = .ok pr := by
+  let p : Params ℝ := { n := 2, r := 3, eps := 1 / 100, itersLimit := 100, image := fun x => [x, 1 - x] }
+  have hr : (1 : ℝ) < p.r := by norm_num [p]
+  have hn : 0 < p.n := by norm_num [p]
+  obtain ⟨s, log, hre, hlog⟩ := exists_reach (p := p) FnsLaws.real hr hn (fun k => (k : ℝ) ^ 2 - 3 * k) 4
+  obtain ⟨pr, hp, _⟩ := prepare_spec FnsLaws.real hr hn (hre.inv FnsLaws.real hr hn)
+  refine ⟨p, s, log, pr, FnsLaws.real, hr, hn, hre, ?_, hp⟩
+  have := congrArg List.length hlog
+  simpa using this
+
+end NonVacuityReal
 
 end AGP
